@@ -130,8 +130,10 @@ class Exec(StmtMixin):
         calls = [n for n in ast.walk(self.fnode) if isinstance(n, ast.Call)]
         texts = set()
         for n in calls:
-            t = ast.unparse(n.func)
-            texts.update((t, "%s/%d" % (t, len(n.args)), "%s#%d" % (t, self.call_occurrence(n, t))))
+            t0 = ast.unparse(n.func)
+            for t in self.call_texts(t0):          # (also under the attribute chain a local alias stands for)
+                texts.update((t, "%s/%d" % (t, len(n.args))))
+            texts.add("%s#%d" % (t0, self.call_occurrence(n, t0)))
         # a hook whose call has disappeared leaves the contract undecided (exit 2), but the rest of the contract is still
         # verified: an obligation refuted there is a violation whatever became of the vanished call
         self.unbound_hooks = []
